@@ -81,7 +81,7 @@ func checkAttReplies(r *Result, prop string, ci int) ([]attCtl, *Violation) {
 			}
 		case 0x1212:
 			b, perr := ref.ParseP9212(f.Body)
-			if f.ID != 0x9212 || perr != nil || b.Name != u.Name {
+			if f.ID != 0x9212 || perr != nil || b.Name != string(u.Name) {
 				return ctl, mk("wrong_reply", fmt.Sprintf("conn %d: 0x1212 for %q answered with id=%#04x body=%x (%v)", ci, u.Name, f.ID, f.Body, perr), e.Step)
 			}
 		}
@@ -129,7 +129,7 @@ func checkC15(r *Result) []Violation {
 			a := r.AttEvs[e.Ref-1]
 			n := unitsDeliveredBefore(r, ci, e.Step+1)
 			for fi, f := range up.Files {
-				if f.Name != a.CurName {
+				if string(f.Name) != a.CurName {
 					continue
 				}
 				var got []ivl
@@ -143,7 +143,7 @@ func checkC15(r *Result) []Violation {
 					return vs
 				}
 				for _, fs := range a.Files {
-					if fs.Name == f.Name && !bytes.Equal(fs.Body, f.Data) {
+					if fs.Name == string(f.Name) && !bytes.Equal(fs.Body, f.Data) {
 						bad("wrong_content", fmt.Sprintf("conn %d: file %q reported complete with %d bytes that differ from the %d bytes sent", ci, f.Name, len(fs.Body), len(f.Data)), e.Step)
 						return vs
 					}
